@@ -184,6 +184,7 @@ type Scenario struct {
 	NeedFf   bool
 	NeedFa   bool
 	NeedApi  bool
+	NoDel    bool // bare-engine workload: the caller re-injects (overwrites) its objects before every call instead of deleting them afterwards
 	lastTag  *engine.Stag
 	OnlyHReqOpt bool // ... or needs nothing but H, Req and *optional* names (Opt, ofn), which a two-object request simply does not inject
 	OnlyHReq bool // every rule gets by with the injected names H and Req (the two-object pool method can be used)
@@ -196,7 +197,7 @@ func (sc *Scenario) Index() {
 	sc.OnlyHReqOpt = true
 	for _, r := range sc.Universe {
 		switch r.Ret {
-		case RetKind, RetTopKind, RetElse, RetElseIf, RetForRange:
+		case RetKind, RetTopKind, RetElse, RetElseIf, RetForRange, RetTopLoop:
 			sc.OnlyHReq = false
 			sc.OnlyHReqOpt = false
 		}
@@ -366,6 +367,18 @@ func InvokeEngine(sc *Scenario, g *engine.Gengine, rb *builder.RuleBuilder, c *C
 	}
 	simrt.Emit(EvCallR, int64(c.Idx), int64(c.Method), flags)
 	c.finish(err, res, panicked, pv)
+	if sc.NoDel {
+		// this caller does not clean up between calls, it just injects again (Add replaces): the four
+		// objects every call injects (H, Req, Resp, Tag) stay and are overwritten, the rest is taken out
+		var opt []string
+		for _, k := range keys {
+			if k != "H" && k != "Req" && k != "Resp" && k != "Tag" {
+				opt = append(opt, k)
+			}
+		}
+		rb.Dc.Del(opt...)
+		return
+	}
 	rb.Dc.Del(keys...)
 }
 
